@@ -19,8 +19,20 @@
 (*                                                                         *)
 (* Denominations are pairs: <<c, s>> with c in Accounts is                  *)
 (* factory/<address of c>/<sub s>; <<0, k>> are the non-factory ones:       *)
-(* <<0,1>> native "ugrain" (has bank metadata from genesis), <<0,2>>        *)
-(* "factory/x", <<0,3>> "factory//x", <<0,4>> "factory/<not bech32>/x".     *)
+(* <<0,1>> native "ugrain" (with or without bank metadata in genesis, see   *)
+(* NativeMetas), <<0,2>> "factory/x", <<0,3>> "factory//x", <<0,4>>         *)
+(* "factory/<not bech32>/x", <<0,5>> "ibc/ABC", <<0,5+c>> "factory/<address *)
+(* of c>" (a creator's bare namespace prefix).                               *)
+(* Sub-denominations are abstract slots: the module never looks into the    *)
+(* sub-denom string (it only joins it behind factory/<creator>/), so every  *)
+(* slot behaves alike.  Which literal string a slot stands for is chosen    *)
+(* per history by the generator (TokenFactoryGen.Bindings) from hostile but *)
+(* valid classes: plain, with '/', with '..' segments that would climb 1, 2 *)
+(* or 3 levels out of the namespace if the name were ever path-cleaned      *)
+(* (onto factory/x, the native denom, ibc/ABC), './' prefix, '//' inside,   *)
+(* trailing '/', empty.  The driver observes the real stores under the      *)
+(* LITERAL name factory/<creator>/<sub as given> and counts every other     *)
+(* name that shows up anywhere (TokenFactoryTrace: C16.NoForeignDenoms).    *)
 (* The creation fee (params.DenomCreationFee, default 10 GRAIN, paid by     *)
 (* `as` into the community pool) is modelled in units: funds[a] = number of *)
 (* fees account a can still pay.                                            *)
@@ -31,6 +43,8 @@ CONSTANTS Accounts,     \* set of account ids (positive integers)
           Subs,         \* set of sub-denom ids (positive integers)
           Amounts,      \* amounts tried by mint / burn
           Funds,        \* [Accounts -> Nat] creation fees each account can pay at genesis
+          NativeMetas,  \* subset of {0, 1}: genesis without / with bank metadata for the native denom
+          SpecialIds,   \* ids k of the non-factory denominations <<0, k>> (1 = native)
           MaxOps        \* bound on operations (model checking only)
 
 VARIABLES denoms,       \* authority metadata: denom -> admin (0 = empty admin), only stored denoms
@@ -53,7 +67,7 @@ Native     == <<0, 1>>
 Short      == <<0, 2>>
 NoCreator  == <<0, 3>>
 BadCreator == <<0, 4>>
-Specials  == {Native, Short, NoCreator, BadCreator}
+Specials  == {<<0, k>> : k \in SpecialIds}
 Factory   == Accounts \X Subs
 AllDenoms == Factory \cup Specials
 NativeSub == 0          \* sub-denom string equal to the native denom
@@ -70,15 +84,16 @@ Rec(a, who, as, c, s, amt, new) == [act |-> a, who |-> who, as |-> as, c |-> c, 
 Done(r, w) == res' = w /\ last' = r /\ nops' = nops + 1
 
 -----------------------------------------------------------------------------
-Init ==
+InitWith(m) ==
   /\ denoms = [d \in {} |-> 0]
-  /\ bmeta = [d \in {Native} |-> 0]
+  /\ bmeta = [d \in (IF m = 1 THEN {Native} ELSE {}) |-> 0]
   /\ supply = [d \in AllDenoms |-> 0]        \* native: difference to the genesis supply
   /\ bal = [d \in AllDenoms |-> [a \in Accounts |-> 0]]   \* native: remainder beyond whole fees
   /\ funds = Funds
   /\ minted = [d \in AllDenoms |-> 0]
   /\ burned = [d \in AllDenoms |-> 0]
   /\ res = "init" /\ last = Rec("Init", 0, 0, 0, 0, 0, 0) /\ nops = 0
+Init == \E m \in NativeMetas : InitWith(m)
 
 (* MsgCreateDenom: ValidateBasic builds the denom (always fine for these sub-denoms); ante;           *)
 (* validateCreateDenom: bank.HasSupply(subdenom), bank metadata lookup; chargeForCreateDenom;          *)
@@ -202,12 +217,13 @@ BalancesBackSupply == \A d \in AllDenoms : Sum3(bal[d]) = supply[d]
 \* everything the module knows is inside a creator's namespace and has bank metadata
 NamespaceOK == /\ DOMAIN denoms \subseteq Factory
                /\ DOMAIN denoms = DOMAIN bmeta \ {Native}
+\* (that the native denom's metadata never changes is part of the step property MetadataByAdmin)
 \* denominations that were not created by the factory are never touched through it
 NonFactoryUntouched ==
   /\ \A d \in Specials : /\ d \notin DOMAIN denoms
                          /\ supply[d] = 0 /\ minted[d] = 0 /\ burned[d] = 0
                          /\ \A a \in Accounts : bal[d][a] = 0
-  /\ DOMAIN bmeta \cap Specials = {Native} /\ bmeta[Native] = 0
+  /\ DOMAIN bmeta \cap Specials \subseteq {Native} /\ (Native \in DOMAIN bmeta => bmeta[Native] = 0)
 
 Ok  == res' = "ok"
 A   == last'
